@@ -57,7 +57,7 @@ func (authComp) Rule() string {
 type partSpec struct {
 	name, renamed, prev string
 	size                int
-	kind                string // w whole file with its real hash, h whole file with a wrong hash, p first half only
+	kind                string // w whole file with its real hash, h whole file with a wrong hash, p first half only, q second half only (same content as p: seeded by the name alone)
 }
 
 type reqSpec struct {
@@ -113,7 +113,7 @@ func parseReqOp(op []string) (reqSpec, bool) {
 			return q, false
 		}
 		sz, err := strconv.Atoi(f[3])
-		if err != nil || sz < 0 || (f[4] != "w" && f[4] != "h" && f[4] != "p") {
+		if err != nil || sz < 0 || (f[4] != "w" && f[4] != "h" && f[4] != "p" && f[4] != "q") {
 			return q, false
 		}
 		q.parts = append(q.parts, partSpec{unesc(f[0]), unesc(f[1]), unesc(f[2]), sz, f[4]})
@@ -126,6 +126,9 @@ func parseReqOp(op []string) (reqSpec, bool) {
 
 func partContent(p partSpec) []byte {
 	seed := p.name + "#" + p.renamed
+	if p.kind == "q" || p.kind == "p" {
+		seed = p.name + "#" // the two halves of one file, whatever each part says about the rename target
+	}
 	if seed == "#" {
 		seed = "x"
 	}
@@ -196,13 +199,16 @@ func (q reqSpec) wire(now int64) []byte {
 				if p.kind == "h" {
 					h = "00000000000000000000000000000000"
 				}
-				end := p.size
+				beg, end := 0, p.size
 				if p.kind == "p" {
 					end = p.size / 2
 				}
+				if p.kind == "q" {
+					beg = p.size / 2
+				}
 				meta = append(meta, map[string]any{"n": p.name, "r": p.renamed, "p": p.prev, "f": h,
-					"t": fmt.Sprintf("%d+0", now), "s": p.size, "b": 0, "e": end})
-				content = append(content, c[:end]...)
+					"t": fmt.Sprintf("%d+0", now), "s": p.size, "b": beg, "e": end})
+				content = append(content, c[beg:end]...)
 			}
 			m, _ := json.Marshal(meta)
 			metaLen = len(m)
@@ -537,11 +543,11 @@ func (e *authExec) settle(source, key string, recvd []partSpec, sep string) {
 			if !waitFor(func() bool { st := status(name); return st == 1 || st == -1 }) {
 				return
 			}
-		case p.kind == "w" && p.prev == "":
+		case (p.kind == "w" || p.kind == "q") && p.prev == "":
 			if !waitFor(func() bool { return delivered(path) }) {
 				return
 			}
-		case p.kind == "w":
+		case p.kind == "w" || p.kind == "q":
 			// delivered, or parked behind its predecessor (the receiver then answers "waiting")
 			parked := false
 			if !waitFor(func() bool {
